@@ -4,9 +4,11 @@ package main
 import (
 	"fmt"
 	"os"
+	"time"
 
 	rolloutsv1beta1 "github.com/openkruise/rollouts/api/v1beta1"
 
+	"verifharness/lib"
 	"verifharness/sim"
 )
 
@@ -86,9 +88,46 @@ func linear() {
 	}
 }
 
+func probe() {
+	w, err := sim.NewWorld()
+	if err != nil {
+		fmt.Println("HARNESS-ERROR", err)
+		os.Exit(2)
+	}
+	sc := &sim.Scenario{ID: "Q01", Kind: "CloneSet", Style: "partition", Replicas: 4,
+		Steps: []sim.StepSpec{{Replicas: "25%"}, {Replicas: "50%"}, {Replicas: "100%"}}}
+	if err := sc.Build(w); err != nil {
+		fmt.Println("HARNESS-ERROR build", err)
+		os.Exit(2)
+	}
+	w.Store.Log = nil
+	w.Resync()
+	w.FreeQueues = os.Getenv("FREEQ") != ""
+	r := lib.NewReport("PROBE")
+	cfg := sim.Config{Sc: sc, Actions: []string{"release", "approve"}, StateCap: 200000, Verbose: true, Monitors: []sim.Monitor{sim.PanicMonitor{}}}
+	if len(os.Args) > 2 {
+		cfg.Actions = append(cfg.Actions, os.Args[2:]...)
+		cfg.MaxUser = 1
+	}
+	ex := sim.NewExplorer(w, cfg, r)
+	t0 := time.Now()
+	if os.Getenv("PROJ") != "" {
+		ex.Proj = map[string]map[string]bool{}
+	}
+	ex.Run(sim.Budget{User: cfg.MaxUser})
+	for k, v := range ex.Proj {
+		fmt.Printf("  proj %-70s %d\n", k, len(v))
+	}
+	fmt.Printf("nodes=%d keys=%d transitions=%d capped=%v wall=%v\n", ex.NodesCount(), ex.DistinctKeys(), ex.Transitions, ex.Capped, time.Since(t0))
+}
+
 func main() {
 	if len(os.Args) > 1 && os.Args[1] == "linear" {
 		linear()
+		return
+	}
+	if len(os.Args) > 1 && os.Args[1] == "probe" {
+		probe()
 		return
 	}
 	fmt.Println("usage: clustermc linear")
